@@ -729,11 +729,11 @@ Proof.
   { intros st [l r|x|] H; try (apply FI_ret; intros E; specialize (H E); discriminate).
     destruct (is_pe (xk x) || is_index (xk x)) eqn:E; [|apply Hfoe; exact H].
     destruct st; [|apply W_k0]. specialize (H eq_refl). simpl in H. destruct (xk x); simpl in *; discriminate. }
-  apply W_check_ender; [apply Hw|]. intros [o|].
-  - apply Hstop. discriminate.
-  - apply W_skip_ignorables.
-    + intros st x Hx. apply (Hstop st (Err x)). exact Hx.
-    + intros l. unfold call. callw.
+  apply W_skip_ignorables.
+  - intros st x Hx. apply (Hstop st (Err x)). exact Hx.
+  - intros l. apply W_check_ender; [apply Hw|]. intros [o|].
+    + apply Hstop. discriminate.
+    + unfold call. callw.
       * match goal with |- context [Nat.eqb ?a loc] => destruct (Nat.eqb a loc) end; [apply W_ret0|apply IH].
       * apply (Hstop _ (Err x)). intros E. apply andb_prop in E as [_ E]. exact E.
       * apply W_ret0.
@@ -1071,23 +1071,27 @@ Definition rep_stop (k : kont -> prg) (foe : outcome -> prg) (loc : nat) (acc : 
   | _ => Ret Div
   end.
 
-(* one turn of the `while 1` loop after the sentinel check *)
-Definition rep_round (k : kont -> prg) (foe : outcome -> prg) (e body : expr) (ne : option expr) (s : str) (d : bool)
-           (f : nat) (loc : nat) (acc : pres) : prg :=
-  skip_ignorables (fun x => rep_stop k foe loc acc (Err x)) (length s + 2) (ign_of e) s loc (fun preloc =>
-    call body s preloc d true (fun o =>
-      match o with
-      | Ok loc' r' => if Nat.eqb loc' loc then Ret Div else rep_go k foe e body ne s d f loc' (pr_iadd acc r')
-      | Div => Ret Div
-      | Err _ => rep_stop k foe loc acc o
-      end)).
+(* one turn of the `while 1` loop: skip the ignorables, THEN ask the sentinel (at the position behind them), then the body *)
+Definition rep_body (k : kont -> prg) (foe : outcome -> prg) (e body : expr) (ne : option expr) (s : str) (d : bool)
+           (f : nat) (loc : nat) (acc : pres) (preloc : nat) : prg :=
+  call body s preloc d true (fun o =>
+    match o with
+    | Ok loc' r' => if Nat.eqb loc' loc then Ret Div else rep_go k foe e body ne s d f loc' (pr_iadd acc r')
+    | Div => Ret Div
+    | Err _ => rep_stop k foe loc acc o
+    end).
+
+Definition rep_check (k : kont -> prg) (foe : outcome -> prg) (e body : expr) (ne : option expr) (s : str) (d : bool)
+           (f : nat) (loc : nat) (acc : pres) (preloc : nat) : prg :=
+  check_ender ne s preloc (fun r => match r with
+                                    | Some o => rep_stop k foe loc acc o
+                                    | None => rep_body k foe e body ne s d f loc acc preloc
+                                    end).
 
 Lemma rep_go_unfold k foe e body ne s d f loc acc :
   rep_go k foe e body ne s d (S f) loc acc =
-  check_ender ne s loc (fun r => match r with
-                                 | Some o => rep_stop k foe loc acc o
-                                 | None => rep_round k foe e body ne s d f loc acc
-                                 end).
+  skip_ignorables (fun x => rep_stop k foe loc acc (Err x)) (length s + 2) (ign_of e) s loc
+                  (rep_check k foe e body ne s d f loc acc).
 Proof. reflexivity. Qed.
 
 (* where the `not_ender` (NotAny without ignorables) starts its own parseImpl *)
@@ -1122,10 +1126,11 @@ Theorem stop_on_fatal_sentinel G rec k foe e body an c s d f loc acc x :
   acts an = [] ->
   rec (mkargs (Enh an [] ENot c) s loc false true) = run rec (step G (mkargs (Enh an [] ENot c) s loc false true)) ->
   rec (mkargs c s (ender_loc an s loc) false true) = Some (Err x) -> is_fatal (xk x) = true ->
-  run rec (rep_go k foe e body (Some (Enh an [] ENot c)) s d (S f) loc acc) =
-  run rec (rep_round k foe e body (Some (Enh an [] ENot c)) s d f loc acc).
+  forall loc0,
+  run rec (rep_check k foe e body (Some (Enh an [] ENot c)) s d f loc0 acc loc) =
+  run rec (rep_body k foe e body (Some (Enh an [] ENot c)) s d f loc0 acc loc).
 Proof.
-  intros Ha Hrec Hc Hx. rewrite rep_go_unfold.
+  intros Ha Hrec Hc Hx loc0. unfold rep_check.
   rewrite (check_ender_fatal_sentinel G rec an c s loc x _ Ha Hrec Hc Hx). reflexivity.
 Qed.
 
@@ -1133,9 +1138,10 @@ Qed.
    try_parse turns it into a ParseException and the loop ends quietly with what has been matched *)
 Theorem stop_on_check_never_fatal rec k foe e body ne s d f loc acc x :
   rec (mkargs ne s loc false true) = Some (Err x) -> is_fatal (xk x) = true ->
-  run rec (rep_go k foe e body (Some ne) s d (S f) loc acc) = run rec (k (inr (loc, RPR acc))).
+  forall loc0,
+  run rec (rep_check k foe e body (Some ne) s d f loc0 acc loc) = run rec (k (inr (loc0, RPR acc))).
 Proof.
-  intros Hr Hx. rewrite rep_go_unfold. unfold check_ender. rewrite (run_try_parse_fatal _ _ _ _ _ _ _ Hr Hx). reflexivity.
+  intros Hr Hx loc0. unfold rep_check, check_ender. rewrite (run_try_parse_fatal _ _ _ _ _ _ _ Hr Hx). reflexivity.
 Qed.
 
 (* ------------------------------------------------------------------------------------------- *)
